@@ -892,7 +892,7 @@ def main(ctx):
         ctx.obligation("tie:Generated.C19.shapes = expectedShapes (parse-side Go text as transcribed)", "tie", True, "")
     lean_ok = ok
     if ok:
-        ctx.audit("GojaModel.C19.Props", expect_min=48)
+        ctx.audit("GojaModel.C19.Props", expect_min=52)
         if ctx.tier == "thorough":
             ctx.leanchecker("GojaModel.C19.Props")
     h = ctx.go_build()
@@ -935,7 +935,7 @@ def main(ctx):
                 addP(random_edit(r, t), "edit-sampled")
     ctx.stats["parse_cases"] = {"total": len(P), "generated": n_gen, "edit_bases": len(edit_bases), "exhaustive_edits": n_ex}
 
-    S = [l for l in corpus if l.startswith("S ")]
+    S = [l for l in corpus if l.split(" ")[0] in ("S", "SM", "SB", "SC")]
     gaps_all = all_gaps(r)
     n_sv = 120 if quick else 1000
     for i in range(n_sv):
@@ -975,6 +975,72 @@ def main(ctx):
         toks = gen_mval(0, r.choice([1, 2, 3, 4]))
         for g in r.sample(gaps_all[:14], 2):
             S.append("SM " + g + " " + " ".join(toks))
+    # str with its unwrapping switch (Boxed.strB): boxed primitives, BigInt (TypeError), non-finite numbers x gaps
+    def gen_bval(depth, maxdepth, bigp):
+        k = r.random()
+        if depth >= maxdepth or k < 0.5:
+            j = r.random()
+            if j < bigp: return [r.choice(["g", "Xg"])]
+            if j < 0.15: return [r.choice(["u", "F"])]
+            if j < 0.25: return ["I"]
+            if j < 0.33: return ["Xi"]
+            if j < 0.45: return ["Xn" + hx(str(r.choice([0, 1, 7, 42, -3])))]
+            if j < 0.57: return ["Xs" + hx(r.choice(["", "a", "q\"", "\ud83d\ud83d\ude00"]))]
+            if j < 0.67: return [r.choice(["Xt", "Xf"])]
+            if j < 0.77: return ["Xy"]
+            if j < 0.85: return ["z"]
+            if j < 0.93: return ["n" + hx(str(r.choice([0, 1, 7, -3])))]
+            return ["s" + hx(r.choice(["", "a"]))]
+        if k < 0.75:
+            n = r.choice([0, 1, 2, 3])
+            out = ["a%d" % n]
+            for _ in range(n): out += gen_bval(depth + 1, maxdepth, bigp)
+            return out
+        n = r.choice([0, 1, 2, 3])
+        keys = r.sample(["a", "b", "c", "d", "", "x y", "\u00e9"], n)
+        out = ["o%d" % n]
+        for kk in keys:
+            out.append("s" + hx(kk)); out += gen_bval(depth + 1, maxdepth, bigp)
+        return out
+    for toks in (["Xy"], ["a1", "Xy"], ["o1", "s0061", "Xy"], ["g"], ["Xg"], ["a2", "n0031", "g"], ["o2", "s0061", "u", "s0062", "Xg"], ["Xi"], ["I"], ["Xt"]):
+        for g in ("n0", "n2"): S.append("SB " + g + " " + " ".join(toks))
+    for _ in range(150 if quick else 2500):
+        toks = gen_bval(0, r.choice([1, 2, 3, 4]), r.choice([0.0, 0.0, 0.03, 0.1]))
+        for g in r.sample(gaps_all[:14], 2):
+            S.append("SB " + g + " " + " ".join(toks))
+    # cycle detection (Cycle.strC): object identities, shared references (same object twice), back-references (cycles), functions
+    def gen_cval(depth, maxdepth, stt):
+        k = r.random()
+        if stt["closed"] and k < 0.18:
+            return ["R%d" % r.choice(stt["closed"])]                       # the same object again
+        if stt["open"] and k < 0.18 + stt["cycp"]:
+            return ["R%d" % r.choice(stt["open"])]                         # an ancestor: a cycle
+        if depth >= maxdepth or k < 0.5:
+            j = r.random()
+            if j < 0.25:
+                stt["n"] += 1; stt["closed"].append(stt["n"]); return ["F%d" % stt["n"]]
+            if j < 0.35: return ["u"]
+            if j < 0.5: return ["z"]
+            if j < 0.6: return [r.choice(["t", "f"])]
+            if j < 0.85: return ["n" + hx(str(r.choice([0, 1, 7, -3])))]
+            return ["s" + hx(r.choice(["", "a", "q\""]))]
+        stt["n"] += 1; me = stt["n"]
+        stt["open"].append(me)
+        if k < 0.75:
+            n = r.choice([0, 1, 2, 3]); out = ["A%d:%d" % (me, n)]
+            for _ in range(n): out += gen_cval(depth + 1, maxdepth, stt)
+        else:
+            n = r.choice([0, 1, 2, 3]); out = ["O%d:%d" % (me, n)]
+            for kk in r.sample(["a", "b", "c", "d", "", "x y"], n):
+                out.append("s" + hx(kk)); out += gen_cval(depth + 1, maxdepth, stt)
+        stt["open"].pop(); stt["closed"].append(me)
+        return out
+    for toks in (["A1:2", "F2", "R2"], ["O1:2", "s0061", "F2", "s0063", "R2"], ["A1:3", "F2", "A3:1", "O4:1", "s006b", "R2", "R2"],
+                 ["A1:1", "R1"], ["O1:1", "s0061", "A2:1", "R1"], ["A1:2", "O2:1", "s0078", "n0031", "R2"], ["F1"]):
+        for g in ("n0", "n2"): S.append("SC " + g + " " + " ".join(toks))
+    for _ in range(150 if quick else 2500):
+        toks = gen_cval(0, r.choice([2, 3, 4]), {"n": 0, "closed": [], "open": [], "cycp": r.choice([0.0, 0.0, 0.03, 0.08])})
+        S.append("SC n%d " % r.choice([0, 0, 1, 2, 4]) + " ".join(toks))
     # allow-lists on plain data (model: stringifyPL = stringify ∘ project)
     SL = [l for l in corpus if l.startswith("SL ")]
     for i in range(100 if quick else 1500):
